@@ -40,6 +40,7 @@ type Task struct {
 	// acquisition by this task (linearisation points for oracles).
 	AcqSeq  uint64
 	AcqCnt  uint64
+	Sched   uint64 // how many times the scheduler picked this task (its progress in scheduling points)
 	RecAcq  bool     // record every acquisition's sequence number in AcqLog
 	AcqLog  []uint64
 	Local   map[string]any
@@ -641,6 +642,7 @@ func (s *Sim) schedule() {
 		s.mu.Lock()
 		t.state = stRunning
 		t.pred = nil
+		t.Sched++
 		s.current = t
 		s.mu.Unlock()
 		t.gate <- struct{}{}
